@@ -22,7 +22,8 @@ EXPLANATION = (
     "same-family T-norm; L5 monotonicity, as the sign of compute(a2,b) - compute(a,b) at every order type with a <= a2; "
     "L6 associativity compute(compute(a,b),c) == compute(a,compute(b,c)) (not NormalizedSum). A violation is reported only for a "
     "definite disagreement (different normal forms confirmed by their values at the witness, or a definite wrong sign); the "
-    "numbers of order types proven / undecided are reported. Elementwise safety of every kernel is C02/V1"
+    "numbers of order types proven / undecided are reported. Elementwise safety of every kernel is C02/V1; operators are applied to the "
+    "operands only after scalar() coercion (V8); kernels are pure (K1)"
 )
 ASSUMPTIONS = [
     "real arithmetic: floating-point rounding (e.g. of a+b near 1) is not modelled",
